@@ -184,6 +184,7 @@ func wsPart(w *vc.Writer, r *vc.Rand) {
 		}
 		conn := vfake.NewConn()
 		responses := vc.L{}
+		emsg := ""
 		if !wrong {
 			for j := 0; j < rr.Intn(4); j++ {
 				s := rr.Pick(strPool)
@@ -195,7 +196,7 @@ func wsPart(w *vc.Writer, r *vc.Rand) {
 			} else {
 				// the reason of a close frame is limited to 123 bytes: long messages (also multi-byte ones cut in the middle) must
 				// still end the socket with a well-formed close frame that carries the code
-				emsg := rr.Pick([]string{"target failed", "target failed", strings.Repeat("long reason ", 20), strings.Repeat("é中", 70), strings.Repeat("x", 123), strings.Repeat("y", 124), ""})
+				emsg = rr.Pick([]string{"target failed", "target failed", strings.Repeat("long reason ", 20), strings.Repeat("é中", 70), strings.Repeat("x", 123), strings.Repeat("y", 124), ""})
 				conn.Script = append(conn.Script, vfake.RespItem{Kind: vfake.KErr, Status: status.New(codes.Code(outcome), emsg), NeedReqs: expectReqs})
 			}
 		}
@@ -237,6 +238,7 @@ func wsPart(w *vc.Writer, r *vc.Rand) {
 		close(gate)
 		got := vc.L{}
 		closeCode, reasonHasCode := -1, false
+		reasonText := ""
 		ws.SetReadDeadline(time.Now().Add(5 * time.Second))
 		for {
 			op, data, err := ws.ReadMessage()
@@ -244,6 +246,7 @@ func wsPart(w *vc.Writer, r *vc.Rand) {
 				if ce, ok := err.(*websocket.CloseError); ok {
 					closeCode = ce.Code
 					reasonHasCode = strings.HasPrefix(ce.Text, "code ")
+					reasonText = ce.Text
 				}
 				break
 			}
@@ -275,8 +278,9 @@ func wsPart(w *vc.Writer, r *vc.Rand) {
 		conn.Unlock()
 		if wrong {
 			outcome = 3
+			reasonText = "" // the text of the wrong-frame-type error is not modelled
 		}
-		w.Case(vc.L{cs, hasBody, frames, responses, outcome, reqBin, respBin}, vc.L{toTarget, got, closeCode, reasonHasCode}, nFrames > 0)
+		w.Case(vc.L{cs, hasBody, frames, responses, outcome, reqBin, respBin, emsg}, vc.L{toTarget, got, closeCode, reasonHasCode, reasonText}, nFrames > 0)
 	}
 }
 
